@@ -669,5 +669,6 @@ func c17(r *engine.Run) {
 		"state merging is by the complete exported state; the decoder pointer is the only field left out")
 	_ = strings.Join
 	cov["two_account_wallets"] = c17Multi(r, sp.checks)
+	cov["recovery_through_the_service"] = c17Recover(r, sp.checks)
 	r.Finish(cov)
 }
